@@ -47,6 +47,8 @@ type ConcCase struct {
 	// issues) instead of the native backend calls; answers are translated back (success flag, header revision,
 	// key-value of the failure branch)
 	API string `json:"api,omitempty"`
+	// ReadOwn: every client reads its own successful create/update back at the revision of the answer
+	ReadOwn bool `json:"readown,omitempty"`
 }
 
 // ConcExpClasses are the expected-revision classes used under concurrency
@@ -72,6 +74,14 @@ type OpRec struct {
 	Attempts                int
 	Faulted                 bool
 	Unknown                 bool // the engine answered 'outcome unknown' to this request's commit
+	// read-own-write (ConcCase.ReadOwn): right after a successful create/update the client reads the key at the
+	// revision it was answered with — possibly ahead of the node's committed revision while an older write is parked
+	DidRead   bool
+	ReadHdr   uint64
+	ReadHasKv bool
+	ReadKvRev uint64
+	ReadVal   []byte
+	ReadErr   string
 }
 
 func (r *OpRec) String() string {
@@ -435,6 +445,34 @@ func RunConc(c *ConcCase) (*ConcHistory, error) {
 				}
 				r.RespTick = atomic.AddInt64(&tick, 1)
 				r.RespCommits = okCommits()
+				if c.ReadOwn && err == nil && succeeded && hdr != nil && op.Kind != "delete" {
+					r.DidRead = true
+					if c.API == "etcd" {
+						rr, rerr := etcdSrv.Range(ctx, &etcdserverpb.RangeRequest{Key: []byte(key), Revision: int64(hdr.Revision)})
+						if rerr != nil {
+							r.ReadErr = rerr.Error()
+						} else {
+							if rr.Header != nil {
+								r.ReadHdr = uint64(rr.Header.Revision)
+							}
+							if len(rr.Kvs) > 0 {
+								r.ReadHasKv, r.ReadKvRev, r.ReadVal = true, uint64(rr.Kvs[0].ModRevision), rr.Kvs[0].Value
+							}
+						}
+					} else {
+						gr, rerr := env.B.Get(ctx, &proto.GetRequest{Key: []byte(key), Revision: hdr.Revision})
+						if rerr != nil {
+							r.ReadErr = rerr.Error()
+						} else {
+							if gr.Header != nil {
+								r.ReadHdr = gr.Header.Revision
+							}
+							if gr.Kv != nil {
+								r.ReadHasKv, r.ReadKvRev, r.ReadVal = true, gr.Kv.Revision, gr.Kv.Value
+							}
+						}
+					}
+				}
 				recMu.Lock()
 				cur[ci] = nil
 				switch {
@@ -799,6 +837,21 @@ func (h *ConcHistory) CheckRevisions() error {
 	for _, r := range h.Ops {
 		if r.HasKv && r.Outcome != "err" && r.Rev < r.KvRev {
 			return fmt.Errorf("%s: header revision %d is smaller than the revision %d of the kv it returns", r, r.Rev, r.KvRev)
+		}
+		if !r.DidRead || r.ReadErr != "" {
+			continue
+		}
+		// the client read its own write back at the revision it was answered with
+		if r.ReadHasKv && r.ReadHdr < r.ReadKvRev {
+			return fmt.Errorf("%s: read back at revision %d, the answer's header revision %d is smaller than the revision %d of the kv it carries", r, r.Rev, r.ReadHdr, r.ReadKvRev)
+		}
+		if r.ReadHasKv && r.ReadKvRev > r.Rev {
+			return fmt.Errorf("%s: read back at revision %d returned a kv of the later revision %d", r, r.Rev, r.ReadKvRev)
+		}
+		if !h.Case.Compactor && !h.Case.PreCompact && len(h.Case.Faults) == 0 {
+			if !r.ReadHasKv || r.ReadKvRev != r.Rev || !bytes.Equal(r.ReadVal, r.Val) {
+				return fmt.Errorf("%s: read back at its own revision %d returned kv=%v %q@%d, want %q@%d", r, r.Rev, r.ReadHasKv, trunc(r.ReadVal), r.ReadKvRev, trunc(r.Val), r.Rev)
+			}
 		}
 	}
 	return nil
